@@ -57,7 +57,7 @@ def _ns():
         'mappingproxy': types.MappingProxyType, 'frozenset': frozenset, 'set': set, 'bytearray': bytearray,
         'complex': complex, 'range': range, 'BareMapping': BareMapping,
     }
-    for n in ('EnumInt', 'EnumStr', 'EnumMixed', 'EnumStrMix', 'EnumIntMix', 'EnumNum', 'EnumSwap', 'SubStr', 'SubInt', 'SubFloat', 'SubList', 'SubDict', 'NestedRender'):
+    for n in ('EnumInt', 'EnumStr', 'EnumMixed', 'EnumStrMix', 'EnumIntMix', 'EnumNum', 'EnumSwap', 'SubDate', 'SubStr', 'SubInt', 'SubFloat', 'SubList', 'SubDict', 'NestedRender'):
         ns[n] = getattr(grammar, n)
     ns['dc'] = grammar.dc_class
     return ns
@@ -114,6 +114,8 @@ def expr(v) -> str:
         return f"Decimal({str(v)!r})"
     if ty is fractions.Fraction:
         return f"Fraction({v.numerator}, {v.denominator})"
+    if ty.__name__ == 'SubDate':
+        return f"SubDate.fromisoformat({v.isoformat()!r})"
     if ty in (datetime.date, datetime.time, datetime.datetime):
         return f"{ty.__name__ if ty is not datetime.datetime else 'datetime.datetime'}.fromisoformat({v.isoformat()!r})"
     if isinstance(v, pathlib.PurePath):
